@@ -28,3 +28,11 @@ package assert
 //@ func IsAssertionFailure
 //@   props C07 C11
 //@   ensures result == typeis(err, *withAssertionFailure)
+
+//@ func HasAssertionFailure$1
+//@   props C07 C11
+//@   ensures ok == typeis(err, *withAssertionFailure)
+
+//@ func HasAssertionFailure
+//@   props C07 C11
+//@   ensures result == ifOk(err, closure("assert.HasAssertionFailure$1"))
